@@ -6,6 +6,7 @@ mod compile;
 mod frags;
 mod lift;
 mod ext;
+mod eqord;
 mod sat;
 mod desc;
 mod psbt;
@@ -14,6 +15,8 @@ mod tap;
 mod validate;
 mod vgen;
 mod text;
+mod translate;
+mod tree;
 
 fn main() {
     // panics of the library are caught with catch_unwind and reported as observations
@@ -39,6 +42,8 @@ fn main() {
         "validate" => validate::run(&args[2..]),
         "text" => text::run(&args[2..]),
         "ext" => ext::run(&args[2..]),
+        "eqord" => eqord::run(&args[2..]),
+        "translate" => translate::run(&args[2..]),
         other => {
             eprintln!("unknown engine {}", other);
             std::process::exit(2);
